@@ -45,6 +45,7 @@ def showRes : Model.Res → String
   | .ok o => "ok " ++ showOutcome o
   | .err => "err"
   | .panic => "panic"
+  | .sideEffect => "direct-register-write"
 
 def dedupSortNoZero (l : List Nat) : List Nat :=
   (sortBy (fun (r : Nat) => (r : Int)) (l.filter (fun r => r != 0))).eraseDups
@@ -75,7 +76,7 @@ def c02 (line : String) : String :=
     | none => s!"G {id} bad-dump\nS {id} bad-dump"
     | some g =>
       let gexe := match g.run ctx gl pc mem seq with
-        | .ok e => "ok " ++ showExe e
+        | .ok e => "ok " ++ showExe { e with DirectWrites := e.DirectWrites.filter fun (r, v) => GoMap.get1 ctx.Registers r != v }
         | .error f => showFault f
       let gline := s!"G {id} {gexe} | rr=[{showRegs g.readRegisters}] wr=[{showRegs g.writeRegisters}] mr=[{showAddrs (g.memoryRead ctx seq)}] mw=[{showAddrs (g.memoryWrite ctx seq)}] ty={repr g.instructionType}"
       -- specification side: from the TEXT (independent of the Go struct dump), with the register view of the context
